@@ -93,6 +93,20 @@ def gen_progs(rng, tier):
                 k += 1
                 threads = [call_ops(rng, k0, p0, 0), call_ops(rng, k1, p1, 0)]
                 progs.append(conclib.Prog("c16p_%s_%s_%s_%s" % (k0, p0.replace("/", "-"), k1, p1.replace("/", "-")), CFG, pair_setup, threads, "explore 4000"))
+    # free-running OS threads (no scheduler): what happens when a thread meets the lock HELD - the cooperative scheduler
+    # never shows that, it switches threads only before acquisitions.  Every distinct outcome of the rounds is judged
+    # against the sequential orders like an explored schedule
+    rounds = 400 if tier == "quick" else 6000
+    stress = [
+        ([], [call_ops(rng, "create_file", "f", 0), call_ops(rng, "create_file", "a", 0),
+              ["readdir 0:", "exists 0:j66", "readdir 0:"], ["metadata 0:j61", "readdir 0:", "exists 0:j61"]]),
+        (["createfile 0:j66", "hwrite 1000 6f6c64", "hdrop 1000"],
+         [call_ops(rng, "append", "f", 0), call_ops(rng, "open_read", "f", 0), ["metadata 0:j66", "readdir 0:", "metadata 0:j66"]]),
+        (["createdir 0:j61"], [call_ops(rng, "create_file", "a/f", 0), ["createdir 0:j612f62", "readdir 0:j61"],
+                               ["readdir 0:j61", "exists 0:j612f66", "metadata 0:j61"]]),
+    ]
+    for j, (setup, threads) in enumerate(stress):
+        progs.append(conclib.Prog("c16s%d" % j, CFG, setup, threads, "stress %d,seq" % rounds))
     n = 40 if tier == "quick" else 400
     for i in range(n):
         nthreads = 2 if (tier == "quick" or rng.random() < 0.7) else 3
@@ -114,7 +128,9 @@ RULE = ("all interleavings at lock-acquisition granularity (depth-first enumerat
         "append, remove_file, remove_dir, exists, metadata, read_dir, open+read on the overlapping paths /a, /a/b, /a/f, /f; "
         "for every schedule: results and final snapshot must be among those of the sequential interleavings of the same calls "
         "run on the real MemoryFS (results compared as Ok values / error), no panic, no deadlock; every explored schedule "
-        "(a sample of 400 per program) is replayed on the Coq interleaved semantics and compared including the section labels")
+        "(a sample of 400 per program) is replayed on the Coq interleaved semantics and compared including the section labels; "
+        "plus 3 programs of 3-4 FREE-RUNNING OS threads (writers next to observers; 400 / 6000 rounds): threads that find the lock "
+        "held, which the cooperative scheduler never produces - every distinct outcome judged against the sequential orders")
 ASSUMPTIONS = ["interleavings finer than lock sections are irrelevant: all shared state of MemoryFS is behind the RwLock (no unsafe, no other shared state in memory.rs)",
                "OS scheduling and RwLock fairness are replaced by the cooperative scheduler",
                "results of failing calls are compared as 'error' (VfsPath::get_parent reads the parent twice, so the error kind of a failing create may differ from every sequential order)"]
